@@ -3,7 +3,7 @@ CONSTANTS NV = 2
           VariableList = TRUE
           AdHocCounting = TRUE
           AdHocModels = FALSE
-          FixedRepair = TRUE
+          FixedRepair = FALSE
 INVARIANTS SameTables CopyOK RebuildExact OrigOK
 VIEW View
 CHECK_DEADLOCK FALSE
